@@ -100,8 +100,16 @@ def _index_guarded(fn: FuncInfo, n: ast.Subscript, pm: Dict[ast.AST, ast.AST]) -
     defs.pop(idx, None)  # the index itself stays symbolic
     v_res = norm(_resolve(n.value, defs))  # the container by its definition, when it is a single-assignment local
 
+    class _Walrus(ast.NodeTransformer):
+        """`(k := e) >= n` tests the value just bound to k: read as `k >= n`"""
+
+        def visit_NamedExpr(self, x: ast.NamedExpr) -> Any:
+            return ast.copy_location(ast.Name(id=x.target.id, ctx=ast.Load()), x)
+
     def truth_table(test: ast.AST) -> Optional[Dict[Tuple[int, int], bool]]:
-        t = _resolve(test, defs)
+        import copy as _copy
+
+        t = _resolve(_Walrus().visit(_copy.deepcopy(test)), defs)
         out: Dict[Tuple[int, int], bool] = {}
         for i in range(0, 5):
             for ln in range(0, 5):
